@@ -353,8 +353,12 @@ def replay_schedule(spec):
     elif spec['meas_mode'] == 'empty':
         meas = []
     ms = spec.get('model_states', [0, 0])
-    gm = inertial_sensor.EstimationModel(bias_sd=1e-5, noise=1e-6) if ms[0] else inertial_sensor.EstimationModel()
-    am = inertial_sensor.EstimationModel(bias_sd=1e-2, noise=1e-3) if ms[1] else inertial_sensor.EstimationModel()
+    # with increments the models carry scale/misalignment states, so that the averaged readings
+    # (increments / step length) actually enter the system matrix: a zero or negative step length
+    # then shows as non-finite output instead of passing silently
+    sm = {'scale_misal_sd': 1e-3} if (spec.get('with_increments') or spec['kind'] == 'feedback') and (ms[0] or ms[1]) else {}
+    gm = inertial_sensor.EstimationModel(bias_sd=1e-5, noise=1e-6, **sm) if ms[0] else inertial_sensor.EstimationModel()
+    am = inertial_sensor.EstimationModel(bias_sd=1e-2, noise=1e-3, **sm) if ms[1] else inertial_sensor.EstimationModel()
     if spec.get('default_models'):
         gm = am = None
     kw = {} if spec.get('default_step') else {'time_step': spec['step']}
